@@ -24,15 +24,15 @@ def do_parse(fs: simfs.SimFS, op: dict[str, Any], data: bytes, name: str,
              faults: bool = True) -> Any:
     from chartparse.chart import Chart
 
-    sel = world.selection(op.get("select"))
+    selp = op.get("select")
     tape = dict(op.get("io") or {}) if faults else {}
     if op.get("via") == "path":
         p = fs.put(name + ".chart", data)
         fs.queue_tape(p, tape)
         path_obj: Any = pathlib.Path(p) if not op.get("str_path") else p
-        if sel is None:
+        if selp is None:
             return Chart.from_filepath(path_obj)
-        return Chart.from_filepath(path_obj, want_tracks=sel)
+        return world.with_selection(selp, lambda w: Chart.from_filepath(path_obj, want_tracks=w))
     kind = op.get("reader") or "stringio"
     if kind in ("textio", "codecs"):
         p = fs.put(name + ".chart", data)
@@ -43,9 +43,9 @@ def do_parse(fs: simfs.SimFS, op: dict[str, Any], data: bytes, name: str,
     else:
         fp = simfs.make_reader(kind, data, encoding=op.get("encoding") or "utf-8",
                                newline=op.get("newline"), chunk=int(tape.get("chunk") or 7))
-    if sel is None:
+    if selp is None:
         return Chart.from_file(fp)
-    return Chart.from_file(fp, want_tracks=sel)
+    return world.with_selection(selp, lambda w: Chart.from_file(fp, want_tracks=w))
 
 
 def gen_io_tape(r: Any, data: bytes, *, aim: bool = True) -> dict[str, Any]:
